@@ -39,6 +39,7 @@ class _Rec:
     names_slot = None    # index of the entry being filled by _reorder_var
     last_levels = None
     trig = None          # forced trigger countdown (C09), see patch below
+    malloc = None        # MDD: answers of _free.pop()
 
 
 _orig_swap = _b.BDD.swap
@@ -121,7 +122,21 @@ def _request_reordering(bdd):
     return _orig_request(bdd)
 
 
+def _install_mdd():
+    import dd.mdd as _m
+    orig = _m.MDD._allocate
+
+    def _allocate(self):
+        had_free = bool(self._free)
+        u = orig(self)
+        if had_free and _Rec.malloc is not None:
+            _Rec.malloc.append(u)
+        return u
+    _m.MDD._allocate = _allocate
+
+
 def install():
+    _install_mdd()
     _b.BDD.swap = _swap
     _b.BDD._levels = _levels
     _b._reorder_var = _reorder_var
@@ -284,7 +299,41 @@ def ply_tree(spellings):
     return show(t)
 
 
+def dddmp_text(header, nodes):
+    """text-mode DDDMP file from the structured header and node lines"""
+    nv, vi, ordv, sup, ns, ids, perm, aux, nr, roots, nn = header
+    out = ['.ver DDDMP-2.0', '.mode A', f'.varinfo {vi}', f'.nnodes {nn}', f'.nvars {nv}',
+           f'.nsuppvars {ns}']
+    if sup is not None:
+        out.append('.suppvarnames ' + ' '.join(vname(v) for v in sup))
+    if ordv is not None:
+        out.append('.orderedvarnames ' + ' '.join(vname(v) for v in ordv))
+    out.append('.ids ' + ' '.join(map(str, ids)))
+    out.append('.permids ' + ' '.join(map(str, perm)))
+    if aux is not None:
+        out.append('.auxids ' + ' '.join(map(str, aux)))
+    out.append(f'.nroots {nr}')
+    out.append('.rootids ' + ' '.join(map(str, roots)))
+    out.append('.nodes')
+    for (u, info, t, e) in nodes:
+        if info == 'T':
+            i, idx = 'T', 1
+        elif info[0] == 'i':
+            i, idx = info[1:], 0
+        else:
+            i, idx = vname(int(info[1:])), 0
+        out.append(f'{u} {i} {idx} {t} {e}')
+    out.append('.end')
+    return '\n'.join(out) + '\n'
+
+
+class DNodes(list):
+    """body lines of a DDDMP file: (id, info, then, else)"""
+
+
 def fmt_arg(a):
+    if isinstance(a, DNodes):
+        return '[' + ','.join(f'{u}:{i}:{t}:{e}' for u, i, t, e in a) + ']'
     if isinstance(a, Spellings):
         return '[' + ','.join(x.encode().hex() for x in a) + ']'
     if a is None:
@@ -331,6 +380,7 @@ class Impl:
     def __init__(self):
         self.mgr = dict()
         self.amgr = dict()      # 'a0' -> dd.autoref.BDD
+        self.mmgr = dict()      # 'm0' -> dd.mdd.MDD
         self.handles = dict()   # 'a0' -> {hid: Function}
         self.next_hid = dict()
 
@@ -712,6 +762,76 @@ class Impl:
         except AssertionError:
             return False
 
+    # ---- MDD ----
+    def mrun(self, m, name, *args):
+        import dd.mdd as _m
+        d = self.mmgr.get(m)
+        if name == 'new':
+            dv = {vname(v): dict(level=l, len=n) for v, (l, n) in args[0].items()}
+            self.mmgr[m] = _m.MDD(dv)
+            return None
+        if name == 'find_or_add':
+            return d.find_or_add(args[0], *args[1])
+        if name == 'ite':
+            return d.ite(*args)
+        if name == 'apply':
+            return d.apply(*args)
+        if name == 'incref':
+            return d.incref(args[0])
+        if name == 'decref':
+            return d.decref(args[0])
+        if name == 'ref':
+            return d.ref(args[0])
+        if name == 'gc':
+            return d.collect_garbage()
+        raise KeyError(name)
+
+    def mdigest(self, m):
+        d = self.mmgr[m]
+
+        def tup(t):
+            return '(' + ','.join(str(x) for x in t if x is not None) + ')'
+        succ = ';'.join(f'{u}:{tup(t)}' for u, t in sorted(d._succ.items()))
+        pred = ';'.join(f'{tup(t)}:{u}' for t, u in sorted(d._pred.items()))
+        ref = ';'.join(f'{u}:{r}' for u, r in sorted(d._ref.items()))
+        free = ';'.join(str(u) for u in sorted(d._free))
+        ite = ';'.join(f'({g},{u},{v}):{w}' for (g, u, v), w in sorted(d._ite_table.items()))
+        return (f'succ={{{succ}}} pred={{{pred}}} ref={{{ref}}} max={d._max} '
+                f'free={{{free}}} ite={{{ite}}}')
+
+    def op_bdd_to_mdd(self, b, m, dvars, *oracle):
+        import dd.mdd as _m
+        dv = {vname(v): dict(level=l, len=2 ** len(bits), bitnames=[vname(x) for x in bits])
+              for v, (l, bits) in dvars.items()}
+        order = []
+        orig = b.levels
+
+        def levels(skip_terminals=False):
+            for item in orig(skip_terminals):
+                order.append(item[0])
+                yield item
+        b.levels = levels
+        try:
+            mdd, umap = _m.bdd_to_mdd(b, dv)
+        finally:
+            del b.levels
+        self.mmgr[m] = mdd
+        return Extra([[u, x] for u, x in umap.items()], [order])
+
+    # ---- DDDMP ----
+    def op_dddmp_load(self, m, header, nodes):
+        import dd.dddmp as _d
+        text = dddmp_text(header, nodes)
+        fn = self._path(0, '.dddmp')
+        with open(fn, 'w') as f:
+            f.write(text)
+        old = self.mgr.get(m)
+        b = _d.load(fn)
+        if old is not None:
+            old._ref = {1: 0}
+        self.mgr[m] = b
+        return sorted(b.roots)
+
     # ---- formulas ----
     def op_add_expr(self, b, spellings):
         return b.add_expr(' '.join(spellings))
@@ -722,13 +842,16 @@ class Impl:
     def run(self, m, name, *args):
         """Run one operation; return (tape, result_text, raw_value)."""
         _Rec.events = []
+        _Rec.malloc = []
         _Rec.names_slot = None
         try:
             r = None
             try:
-                if isinstance(m, str):
+                if isinstance(m, str) and m.startswith('m'):
+                    r = self.mrun(m, name, *args)
+                elif isinstance(m, str):
                     r = self.arun(m, name, *args)
-                elif name in ('new', 'load_manager'):
+                elif name in ('new', 'load_manager', 'dddmp_load'):
                     f = getattr(self, 'op_' + name)
                     r = f(m, *args)
                 else:
@@ -743,12 +866,17 @@ class Impl:
                 res = 'err:rejected'
                 self.last_exc = e
             tape = [t for t in _Rec.events if t is not None]
+            if isinstance(m, str) and m.startswith('m'):
+                tape = list(_Rec.malloc)
         finally:
             _Rec.events = None
+            _Rec.malloc = None
             _Rec.names_slot = None
         return tape, res, r
 
     def digest(self, m):
+        if isinstance(m, str) and m.startswith('m'):
+            return self.mdigest(m)
         if isinstance(m, str):
             return self.adigest(m)
         return digest(self.mgr[m])
